@@ -96,6 +96,37 @@ func (e *accessEnv) serve(req *http.Request, op func(c flamego.Context) string) 
 	return e.out, rec, e.ran
 }
 
+// clientCookieHeader is the user agent between two requests (Model/Access.lean `clientJar`): of every
+// Set-Cookie line it keeps the name=value part before the first ';' (an empty line is ignored), stores it
+// under the name before the first '=', a later cookie of an EQUAL name replacing the stored one, and sends
+// everything back as one Cookie header joined with "; ".
+func clientCookieHeader(setCookie []string) string {
+	type entry struct{ name, nv string }
+	var jar []entry
+	for _, line := range setCookie {
+		nv, _, _ := strings.Cut(line, ";")
+		if nv == "" {
+			continue
+		}
+		name, _, _ := strings.Cut(nv, "=")
+		found := false
+		for i := range jar {
+			if jar[i].name == name {
+				jar[i] = entry{name, nv}
+				found = true
+			}
+		}
+		if !found {
+			jar = append(jar, entry{name, nv})
+		}
+	}
+	nvs := make([]string, len(jar))
+	for i, e := range jar {
+		nvs[i] = e.nv
+	}
+	return strings.Join(nvs, "; ")
+}
+
 // def: "n" → nil, "d<payload>" → &payload
 func defOf(s string) *string {
 	if strings.HasPrefix(s, "d") {
@@ -261,6 +292,36 @@ func execAccess(args []string, lines [][]string) []string {
 					return
 				}
 				o = out // only the value read back is the property's observable, not the header text
+			case len(l) >= 3 && len(l)%2 == 1 && l[0] == "M": // several SetCookie calls on one response
+				var names, vals []string
+				for i := 1; i+1 < len(l); i += 2 {
+					names = append(names, unhx(l[i]))
+					vals = append(vals, unhx(l[i+1]))
+				}
+				_, rec, ok := e.serve(httptest.NewRequest("GET", "/set", nil), func(c flamego.Context) string {
+					for i := range names {
+						c.SetCookie(http.Cookie{Name: names[i], Value: vals[i]})
+					}
+					return ""
+				})
+				if !ok {
+					o = "nomatch"
+					return
+				}
+				req := httptest.NewRequest("GET", "/get", nil)
+				req.Header.Set("Cookie", clientCookieHeader(rec.Header()["Set-Cookie"]))
+				out, _, ok := e.serve(req, func(c flamego.Context) string {
+					hs := make([]string, len(names))
+					for i, n := range names {
+						hs[i] = hx(c.Cookie(n))
+					}
+					return strings.Join(hs, ",")
+				})
+				if !ok {
+					o = "nomatch"
+					return
+				}
+				o = out
 			case (len(l) == 3 || len(l) == 4) && l[0] == "K": // one or two Cookie header lines
 				name := unhx(l[len(l)-1])
 				req := httptest.NewRequest("GET", "/get", nil)
@@ -476,6 +537,22 @@ func randCookieLine(r *rand.Rand, name string) string {
 	return strings.Join(parts, sep)
 }
 
+var multiPool = []string{"session", "session_id", "sess", "a", "ab", "abc", "b", "k", "kk", "sid", "id", "a.b", "a.", "K"}
+
+// 2..4 SetCookie calls on one response; names with prefix relations, equal names and unrelated names
+func randMulti(r *rand.Rand) string {
+	n := 2 + r.Intn(3)
+	var sb strings.Builder
+	for i := 0; i < n; i++ {
+		name := multiPool[r.Intn(len(multiPool))]
+		if r.Intn(25) == 0 {
+			name = []string{"", "k k", "k=", "k;"}[r.Intn(4)]
+		}
+		fmt.Fprintf(&sb, " %s %s", hx(name), hx(randValue(r)))
+	}
+	return sb.String()
+}
+
 func genAccess(r *rand.Rand, tier string, emit Emit) {
 	thorough := tier == "thorough"
 	count := 0
@@ -588,6 +665,31 @@ func genAccess(r *rand.Rand, tier string, emit Emit) {
 		op("P %s a - %s", acc, hx("v"))
 	}
 
+	// several cookies on one response: every ordered tuple of 2..3 (4 in thorough) names over a pool with
+	// prefix relations, equal names and unrelated names, each write with its own marker value
+	multiNames := []string{"a", "ab", "abc", "b"}
+	maxTuple := 3
+	if thorough {
+		maxTuple = 4
+	}
+	var tup func(ns []string)
+	tup = func(ns []string) {
+		if len(ns) >= 2 {
+			var sb strings.Builder
+			for i, n := range ns {
+				fmt.Fprintf(&sb, " %s %s", hx(n), hx(fmt.Sprintf("v%d %s;", i, n)))
+			}
+			op("M%s", sb.String())
+		}
+		if len(ns) == maxTuple {
+			return
+		}
+		for _, n := range multiNames {
+			tup(append(ns[:len(ns):len(ns)], n))
+		}
+	}
+	tup(nil)
+
 	// ---- random: structured and mostly valid, then a malformed stream
 	nq, nm := 6000, 2000
 	if thorough {
@@ -618,6 +720,8 @@ func genAccess(r *rand.Rand, tier string, emit Emit) {
 				name = []string{"w", "", "V", "route"}[r.Intn(4)]
 			}
 			op("P %s %s %s %s", acc, []string{"p", "a"}[r.Intn(2)], hx(randValue(r)), hx(name))
+		case k == 7:
+			op("M%s", randMulti(r))
 		case k < 9:
 			name := "k"
 			if r.Intn(6) == 0 {
